@@ -19,9 +19,9 @@ ASSUMPTIONS = ['generated classes: one float or int parameter x {writable, reado
 REQUIRED_TAGS = ['gen/accepted', 'gen/refused', 'gen/unreachable']
 LIMITS = {'quick': {'max_paths': 20000, 'max_s': 150}, 'thorough': {'max_paths': 200000, 'max_s': 600}}
 
-ACCESS = ['writable', 'readonly', 'constant']
+ACCESS = ['writable', 'readonly', 'constant', 'cfg-writable']      # cfg-writable: readonly in the class, readonly=False in the configuration
 EXPORT = ['default', 'false', 'custom-us', 'custom-plain']
-LIMS = ['none', 'min', 'max', 'minmax', 'limits']
+LIMS = ['none', 'min', 'max', 'minmax', 'limits', 'limits+max']
 
 
 def cases(tier):
@@ -29,6 +29,10 @@ def cases(tier):
     for kind in ('float', 'int'):
         for acc in ACCESS:
             for lim in LIMS:
+                if lim == 'limits+max' and acc in ('readonly', 'constant'):
+                    continue
+                if acc == 'cfg-writable' and lim not in ('none', 'minmax', 'limits+max'):
+                    continue
                 out.append({'fn': 'run_generated', 'id': f'generated/{kind}/{acc}/{lim}', 'params': {'kind': kind, 'access': acc, 'lim': lim}})
     return out
 
@@ -59,15 +63,17 @@ def run_generated(env, p):
     if acc == 'constant':
         kw['constant'] = lo
     else:
-        kw['readonly'] = acc == 'readonly'
+        kw['readonly'] = acc in ('readonly', 'cfg-writable')
         kw['default'] = lo
     ns = {'p': Parameter('generated', dtype, **kw)}
     if lim in ('min', 'minmax'):
         ns['p_min'] = Limit()
     if lim in ('max', 'minmax'):
         ns['p_max'] = Limit()
-    if lim == 'limits':
+    if lim in ('limits', 'limits+max'):
         ns['p_limits'] = Limit()
+    if lim == 'limits+max':
+        ns['p_max'] = Limit()
     bases = (Module,)
     if hook:
         def check_p(self, value):
@@ -86,7 +92,10 @@ def run_generated(env, p):
         ns['write_p'] = write_p
     try:
         Gen = type('Gen', bases, ns)
-        srv = C.make_node({'m': {'cls': Gen, 'description': 'generated'}})
+        mcfg = {'cls': Gen, 'description': 'generated'}
+        if acc == 'cfg-writable':
+            mcfg['p'] = {'readonly': False}
+        srv = C.make_node({'m': mcfg})
     except Exception as e:
         # a combination the framework refuses at class / module creation (e.g. limits for a constant) is not a request matter
         env.note('gen/class-refused')
@@ -117,6 +126,9 @@ def run_generated(env, p):
         if lim == 'limits':
             mod.p_limits = (a, b)
             dlo, dhi = a, b
+        if lim == 'limits+max':
+            mod.p_max = b          # the limits pair keeps its default (the full range): the single limit is the narrower one
+            dhi = b
     wire = {'default': '_p', 'false': None, 'custom-us': '_zz', 'custom-plain': 'q'}[export]
     names = ['_p', 'p', '_zz', 'q']
     addr = names[env.choice('addr', len(names))]
@@ -136,7 +148,7 @@ def run_generated(env, p):
     if ract == 'changed':
         env.note('gen/accepted')
         env.check(reachable, K + '/request-under-a-wrong-name-accepted', [export, addr])
-        env.check(acc == 'writable', K + '/forbidden-request-accepted', acc)
+        env.check(acc in ('writable', 'cfg-writable'), K + '/forbidden-request-accepted', acc)
         v = after[0]
         tol = M.sx_max(M.absv(M.as_real(x)) * 1.2e-7, 0) if kind == 'float' else 0
         env.check(M.And(lo <= v, v <= hi), K + '/out-of-datainfo-value-accepted')
@@ -157,7 +169,7 @@ def run_generated(env, p):
     if not reachable:
         env.note('gen/unreachable')
         env.check(err == 'NoSuchParameter', K + '/wrong-error-class-for-undescribed-name', [export, addr, err])
-    elif acc != 'writable':
+    elif acc not in ('writable', 'cfg-writable'):
         env.note('gen/refused')
         env.check(err == 'ReadOnly', K + '/wrong-error-class-for-readonly', [acc, err])
     else:
